@@ -158,6 +158,33 @@ pub fn ecrts19(
     Some(best)
 }
 
+/// Variant matching the offset set the code documents for non-step offsets: every offset
+/// strictly inside the busy window, `[0, W)`, plus `W` itself only if it is a step offset of
+/// `demand_steps` (the code keeps step offsets `<= W`).  At a non-step offset equal to `W` no
+/// job of that busy window can arrive; the literal "every offset up to W" evaluation can be
+/// larger there (known finding c07-offset-equal-to-busy-window).
+pub fn ecrts19_inside(
+    sup: &Sup,
+    limit: u64,
+    bw_rhs: impl Fn(u64) -> u64,
+    rhs: impl Fn(u64, u64) -> u64,
+    is_step_offset: impl Fn(u64) -> bool,
+) -> Option<u64> {
+    let w = least_with_offset(sup, 0, limit, |d| bw_rhs(d))?;
+    let mut best = 0u64;
+    let mut a = 0u64;
+    while a <= w {
+        if a < w || is_step_offset(a) {
+            let r = least_with_offset(sup, a, limit, |x| rhs(a, x))?;
+            if r > best {
+                best = r;
+            }
+        }
+        a += 1;
+    }
+    Some(best)
+}
+
 /// interference interval of Lemmas 3, 4/5, 8
 #[inline(always)]
 pub fn interference_interval(prefix: u64, response: u64, own_wcet: u64) -> u64 {
